@@ -6,6 +6,8 @@ package h
 import (
 	"encoding/json"
 	"fmt"
+	"regexp"
+	"strconv"
 	"strings"
 )
 
@@ -266,8 +268,72 @@ func (g *c03gen) block(depth int, inFunc bool, n int) []pnode {
 	return out
 }
 
+var c03ReRange = regexp.MustCompile(`\[1\.\.(\d+)\]`)
+var c03ReCall = regexp.MustCompile(`f(\d+) `)
+
+// c03Elems: how many elements a source produces (rough, errs on the high side)
+func c03Elems(src string, fcost []int) int {
+	if m := c03ReRange.FindStringSubmatch(src); m != nil {
+		n, _ := strconv.Atoi(m[1])
+		return n
+	}
+	if m := c03ReCall.FindStringSubmatch(src); m != nil {
+		if k, _ := strconv.Atoi(m[1]); k >= 1 && k <= len(fcost) {
+			return fcost[k-1] + 1 // a function prints at most about one line per command it runs
+		}
+	}
+	return 3
+}
+
+// c03Cost: a rough count of the commands a block executes. Nested loops over function output multiply
+// quickly; the generator keeps programs small so that the step budget detects hangs, not program size.
+func c03Cost(nodes []pnode, fcost []int) int {
+	c := 0
+	for _, n := range nodes {
+		switch n.T {
+		case "foreach":
+			c += 1 + c03Elems(n.Stages[0], fcost)*(1+c03Cost(n.Kids, fcost))
+		case "pipe":
+			c += 1 + len(n.Stages)
+			for _, s := range n.Stages {
+				if strings.HasPrefix(s, "foreach") {
+					c += 3 * c03Elems(n.S, fcost)
+				}
+			}
+			if m := c03ReCall.FindStringSubmatch(n.S); m != nil {
+				if k, _ := strconv.Atoi(m[1]); k >= 1 && k <= len(fcost) {
+					c += fcost[k-1]
+				}
+			}
+		case "call":
+			if m := c03ReCall.FindStringSubmatch(n.S + " "); m != nil {
+				if k, _ := strconv.Atoi(m[1]); k >= 1 && k <= len(fcost) {
+					c += fcost[k-1]
+				}
+			}
+			c++
+		default:
+			c += 1 + c03Cost(n.Kids, fcost) + c03Cost(n.Else, fcost)
+		}
+	}
+	return c
+}
+
 func genC03(r *Rand, tier string) Case {
-	g := &c03gen{r: r, budget: 22, bulkOK: tier == "thorough"}
+	for budget := 22; ; budget = budget*2/3 + 1 {
+		c, w := genC03Once(r, tier, budget)
+		var fcost []int
+		for _, f := range w.Funcs {
+			fcost = append(fcost, 1+c03Cost(f, nil))
+		}
+		if c03Cost(w.Main, fcost) <= 700 || budget <= 3 {
+			return c
+		}
+	}
+}
+
+func genC03Once(r *Rand, tier string, budget int) (Case, c03W) {
+	g := &c03gen{r: r, budget: budget, bulkOK: tier == "thorough"}
 	var w c03W
 	nf := r.Intn(3)
 	for i := 0; i < nf; i++ {
@@ -284,7 +350,7 @@ func genC03(r *Rand, tier string) Case {
 	for k := 0; k < w.K; k++ {
 		w.Limits = append(w.Limits, []int{0, 0, 1, 3, 16, 256}[r.Intn(6)])
 	}
-	return Case{Class: "sequential", W: mustJSON(w), Sched: interpSched(r, 1500)}
+	return Case{Class: "sequential", W: mustJSON(w), Sched: interpSched(r, 1500)}, w
 }
 
 func printBlock(b *strings.Builder, nodes []pnode, indent string) {
